@@ -35,16 +35,28 @@ def instances(tier, seed):
     pick = pick[:8 if tier == "quick" else 30] + ones[:4 if tier == "quick" else 12]
     for n, spec, e in pick:
         out.append(dict(name="weld:" + n, harness="C06_weldoffset.cpp", args=[spec, "1" if e else "0"]))
+    # (c) direction: reversed mobilizer with swapped roles
+    ys = ["Pin", "Slider", "Universal", "Cylinder", "BendStretch", "Planar", "Gimbal", "Bushing", "Ball", "Free", "LineOrientation", "FreeLine",
+          "Translation", "Screw", "SphericalCoords", "Ellipsoid", "CantileverFreeBeam"]
+    if tier == "quick":
+        ys = ["Pin", "Slider", "Universal", "Cylinder", "Gimbal", "Ball", "Screw", "Planar", "BendStretch", "Translation"]
+    for y in ys:
+        eul = [False, True] if (y in cat.QUAT and tier == "thorough") else [False]
+        for e in eul:
+            d = dict(name="rev:%s%s" % (y, ":euler" if e else ""), harness="C06_reverse.cpp", args=[y, "1" if e else "0", "2"])
+            if y in ("Screw", "CantileverFreeBeam"):
+                d["max_terms"] = 400000       # the coordinate also occurs outside sin/cos: one more variable in every polynomial
+            out.append(d)
     return out
 
 
 def free_sets(inst, tr, tier, rng):
-    return cat.coordinate_free_sets(inst, tr, tier, rng, always=("u", "g_", "f_", "Fext_", "F"))
+    return cat.coordinate_free_sets(inst, tr, tier, rng, always=("u", "g_", "f", "Fext_", "F"))
 
 
 def obligations(enc, inst, tr):
     kind = inst["name"].split(":")[0]
-    return {"weld": ob_weld}[kind](enc, inst, tr)
+    return {"weld": ob_weld, "rev": ob_rev}[kind](enc, inst, tr)
 
 
 def _sv(enc, pre):
@@ -76,4 +88,25 @@ def ob_weld(enc, inst, tr):
     g = [enc.poly(tr.input_by_name["g_%d" % i][2]) for i in range(3)]
     shift = R.mul(P.add(enc.out("A_mass"), P.const(1)), la.dot(la.matvec(RX, g), pX))
     obs.append(eqs(enc, "potential energy changes by the constant -(M + m_W) (R_X g).p_X", [(enc.out("B_PE"), P.sub(enc.out("A_PE"), shift))]))
+    return obs
+
+
+def ob_rev(enc, inst, tr):
+    nuY, nqY = int(tr.note("nuY")), int(tr.note("nqY"))
+    obs = []
+
+    def xf(pre):
+        return [enc.out("%s_R_%d_%d" % (pre, i, j)) for i in range(3) for j in range(3)] + [enc.out("%s_p_%d" % (pre, i)) for i in range(3)]
+
+    def sv(pre):
+        return [enc.out("%s_w_%d" % (pre, i)) for i in range(3)] + [enc.out("%s_v_%d" % (pre, i)) for i in range(3)]
+
+    for b, txt in (("C", "base body of the reversed model (placed by the Free fit)"), ("P", "body reached through the reversed mobilizer")):
+        obs.append(eqs(enc, "%s: same pose in both models" % txt, list(zip(xf("B_X" + b), xf("A_X" + b)))))
+        obs.append(eqs(enc, "%s: same spatial velocity" % txt, list(zip(sv("B_V" + b), sv("A_V" + b)))))
+        obs.append(eqs(enc, "%s: same spatial acceleration (forward dynamics)" % txt, list(zip(sv("B_A" + b), sv("A_A" + b)))))
+    obs.append(eqs(enc, "udot of the mobilizer is the same forward and reversed", [(enc.out("B_udotY_%d" % i), enc.out("A_udotY_%d" % i)) for i in range(nuY)]))
+    obs.append(eqs(enc, "qdot of the mobilizer is the same forward and reversed", [(enc.out("B_qdotY_%d" % i), enc.out("A_qdotY_%d" % i)) for i in range(nqY)]))
+    obs.append(eqs(enc, "kinetic energy equal", [(enc.out("B_KE"), enc.out("A_KE"))]))
+    obs.append(eqs(enc, "potential energy equal", [(enc.out("B_PE"), enc.out("A_PE"))]))
     return obs
